@@ -182,6 +182,40 @@ func main() {
 	var st [2]struct{ f Int }
 	st[c("i", 1)].f = c("v", 8)
 	println("C01/evalorder/field-of-index-assign", calls)
+	// tuple assignment from ONE multi-value expression: the operands on the left come first, too
+	two := func(tag string) (Int, Int) { calls += tag + ";"; return 1, 2 }
+	box := &struct{ f Int }{}
+	pb := func(tag string) *struct{ f Int } { calls += tag + ";"; return box }
+	var x Int
+	calls = ""
+	x, a[c("i", 1)] = two("call")
+	println("C01/evalorder/tuple-call-index", calls, itoa(int64(x*10+a[1])))
+	calls = ""
+	a[c("i0", 0)], a[c("i1", 1)] = two("call")
+	println("C01/evalorder/tuple-call-two-indices", calls)
+	calls = ""
+	x, *pf("p") = two("call")
+	println("C01/evalorder/tuple-call-deref", calls)
+	calls = ""
+	x, pb("sel").f = two("call")
+	println("C01/evalorder/tuple-call-selector", calls, itoa(int64(box.f)))
+	calls = ""
+	x, pb("sel").f = c("v0", 1), c("v1", 2)
+	println("C01/evalorder/tuple-selector", calls)
+	calls = ""
+	var ok bool
+	oks := []bool{false, false}
+	x, oks[c("i", 1)] = m[c("k", 1)]
+	println("C01/evalorder/tuple-commaok-map", calls, btoa(oks[1]))
+	var iv interface{} = Int(3)
+	calls = ""
+	x, oks[c("i", 0)] = iv.(Int)
+	println("C01/evalorder/tuple-commaok-assert", calls, btoa(oks[0]))
+	ch := make(chan Int, 1)
+	ch <- 5
+	calls = ""
+	x, oks[c("i", 1)] = <-ch
+	println("C01/evalorder/tuple-commaok-recv", calls, itoa(int64(x)), btoa(ok))
 }
 `
 
